@@ -74,7 +74,12 @@ def mini_line(r):
 
 def spot_line(r):
     def ws(minimum=1):
-        return " " * r.choice([minimum, minimum, 2, 5]) if minimum else " " * r.choice([0, 0, 1, 3])
+        pad = " " * r.choice([minimum, minimum, 2, 5]) if minimum else " " * r.choice([0, 0, 1, 3])
+        if pad and r.random() < 0.03:
+            # (the format pads with white space: a tabulator or a line break of a wrapped print line is padding too)
+            k = r.randrange(len(pad))
+            pad = pad[:k] + r.choice(["\t", "\n", "\r\n"]) + pad[k + 1:]
+        return pad
     y, m = r.choice([0, 24, 68, 69, 99]), r.randrange(1, 13)
     d = r.randrange(1, 29)
     date = "%02d/%02d/%02d" % (y, m, d)
